@@ -562,9 +562,8 @@ def _plan():
         add("quick", (asz, primary, (), 2, False))
     for asz, primary, pre in ((8, SYM, PRE1), (32, INT, PRE2), (32, SUM, PRE3)):
         add("quick", (asz, primary, pre, 2, False))
-    # thorough: depth 5 on one system, depth 4 on every system (base menu), depth 3 with the extended menu, depth 3 behind
-    # six seeded stores
-    add("thorough", (8, SYM, (), 5, False))
+    # thorough: depth 4 on every system (base menu), depth 3 with the extended menu, depth 3 behind six seeded stores
+    # (one search = one process; a depth-5 search is ~160k transitions in a single process: 14 min wall at load 150)
     for asz in (8, 32):
         for primary in (INT, SYM, SUM):
             add("thorough", (asz, primary, (), 4, False))
